@@ -38,7 +38,7 @@ def run(res):
 
 def _run(res, work):
     pending = []
-    ok, tlog = common.regen_tables()
+    ok, tlog = common.regen_tables("C15")
     if not ok:
         pending.append(("translator", "Generated/FormatTriage.lean can no longer be extracted from bindgen/lib.rs (format_tokens / write changed form)", tlog[-3000:]))
     lean = common.lean_obligations("C15", res.tier)
